@@ -143,7 +143,7 @@ class EventDict(dict, metaclass=MetaEventDict):
             value = self[key]
             if isinstance(value, types.FunctionType):
                 return value(self)
-            elif isinstance(value, tuple):
+            elif type(value) is tuple:  # Not its subclasses (Scale).
                 return arrayed_param(value)
             else:
                 return value
